@@ -41,6 +41,7 @@ namespace mock {
   extern unsigned long now_ms;
   extern unsigned long now_us_extra;
   extern bool quiet;
+  extern void (*on_marker)();   // called when the sketch prints the "#" marker line
   void ev(const char *fmt, ...);
   std::string hex(const std::string &s);
   long take(std::map<int, std::deque<long>> &m, int pin, long dflt);
@@ -108,7 +109,7 @@ class SerialClass {
  public:
   std::deque<std::string> rx;
   void begin(unsigned long baud) { mock::ev("serial.begin %lu", baud); }
-  void out(const char *kind, const std::string &txt) { mock::ev("%s %s", kind, mock::hex(txt).c_str()); }
+  void out(const char *kind, const std::string &txt) { if (txt == "#" && mock::on_marker) mock::on_marker(); mock::ev("%s %s", kind, mock::hex(txt).c_str()); }
   // floats cross the oracle as bit patterns, never as decimal text
   void outf(const char *kind, float v) { uint32_t b; memcpy(&b, &v, 4); mock::ev("%s g%08x", kind, b); }
   void outd(const char *kind, double v) { uint64_t b; memcpy(&b, &v, 8); mock::ev("%s h%016llx", kind, (unsigned long long)b); }
